@@ -62,6 +62,7 @@ struct Shape {
     int storage = 0; // pointer variants: 0 keys in stable arrays, 1 one slot per player refilled in place, 2 fresh heap key per feed (previous one freed)
     bool arbitrary;  // streams not sorted
     int max_steps = 2000; // history bound (never reached by target loser_tree: <= 20 * 24 keys)
+    int sent_class = 0; // loser_tree_scale: 0 sentinel strictly greater than every key, 1 equivalent to the greatest key, 2 (c): some keys are greater than it
     std::vector<std::vector<Key>> stream; // stable storage for the pointer variants
 };
 
@@ -77,6 +78,8 @@ struct Stats {
     bool drained = false;
     int replays_after_exhaustion_n = 0; // replays made while some player was exhausted and a live one remained
     int exhausted_at_start = 0;
+    bool winner_equiv_sentinel = false; // (unguarded) a winner whose key is equivalent to the constructor sentinel was asserted
+    bool cut_by_sentinel = false;       // (unguarded, class (c)) history ended by the sentinel rule
 };
 
 //! winner oracle
@@ -188,6 +191,27 @@ void drive_guarded(const Shape& sh, Stats& st) {
     if (live == 0) st.drained = true;
 }
 
+//! unguarded trees, may the winner be asserted now? Sentinel classes (a) strictly greater than every key and (b) equivalent
+//! to the greatest key: always. Class (c) (keys greater than the sentinel exist, as in tlx's own use of these classes, see
+//! C09_loser_tree_api.hpp): only while the smallest live key is less than the sentinel (stable kinds: or equivalent to it).
+bool observable(const Shape& sh, const std::vector<size_t>& cur, const Key& sentinel, Stats& st) {
+    if (sh.sent_class == 0) return true;
+    const Key* m = nullptr;
+    for (int p = 0; p < sh.k; ++p) {
+        const Key& x = sh.stream[p][cur[p]];
+        if (!m || (sh.desc ? m->key < x.key : x.key < m->key)) m = &x;
+    }
+    const bool below = sh.desc ? sentinel.key < m->key : m->key < sentinel.key;
+    const bool above = sh.desc ? m->key < sentinel.key : sentinel.key < m->key;
+    if (sh.sent_class != 2 || below || (!above && sh.stable)) {
+        if (!below && !above) st.winner_equiv_sentinel = true;
+        return true;
+    }
+    st.cut_by_sentinel = true;
+    PBT_LOG("  smallest live key " << m->key << " is beyond the sentinel " << sentinel.key << ": history ends, nothing asserted\n");
+    return false;
+}
+
 template <class Tree>
 void drive_unguarded(const Shape& sh, const Key& sentinel, Stats& st) {
     const int k = sh.k;
@@ -222,6 +246,7 @@ void drive_unguarded(const Shape& sh, const Key& sentinel, Stats& st) {
     arm_budget(k);
     lt.init();
     arm_budget(k);
+    if (!observable(sh, cur, sentinel, st)) return;
     check_winner(sh, cur, lt.min_source(), "after init", 0, st);
     for (int step = 1; step <= sh.max_steps; ++step) {
         uint32_t w = lt.min_source();
@@ -236,6 +261,7 @@ void drive_unguarded(const Shape& sh, const Key& sentinel, Stats& st) {
         scratch.key = sh.desc ? 2000000000 : -2000000000;
         scratch.tag = 0xdeadbeef;
         ++st.replays;
+        if (!observable(sh, cur, sentinel, st)) return;
         check_winner(sh, cur, lt.min_source(), "after delete_min_insert", step, st);
     }
 }
@@ -352,8 +378,9 @@ PBT_PROPERTY(loser_tree) {
 //            exhausted, i.e. at large k most replays pass exhausted players (replay depth after exhaustion)
 //   keys     1..5 values | all equal | ~total/8 values | wide | disjoint ranges in player order (players run out one
 //            after the other) | disjoint in reverse player order | identical ramps 0,1,2,.. for every player
-// Same protocol, preconditions (unguarded: sentinel strictly greater than every key, history ends before a player
-// runs out) and oracle as target loser_tree.
+//   sentinel (unguarded) strictly greater than every key | equivalent to the greatest key present | the last key of
+//            stream 0 with greater keys elsewhere (restricted oracle, see observable())
+// Same protocol, preconditions (unguarded: history ends before a player runs out) and oracle as target loser_tree.
 namespace {
 struct Rng {
     uint64_t s;
@@ -411,6 +438,11 @@ PBT_PROPERTY(loser_tree_scale) {
     const int keymode = (int)weighted({5, 2, 3, 3, 2, 2, 3});
     const int exhmode = (int)weighted({4, 2, 2, 2}); // guarded: none / 1 in 20 / 1 in 3 / 9 in 10 players start exhausted
     const int sentoff = range(0, 2);
+    // sentinel class of the unguarded trees (drawn LAST; when the bytes are used up it comes from a PRNG of its own, so
+    // that everything expanded from `rng` below is unchanged): (a) strictly greater than every key | (b) equivalent to the
+    // greatest key present | (c) the last key of stream 0 (tlx's own choice; other streams may hold greater keys)
+    Rng rng2{rng.s ^ 0x5e9717e15e9717e1ull};
+    const int sentmode = !src.exhausted() ? (int)src.weighted({3, 3, 2}) : (rng2.below(8) < 3 ? 0 : rng2.below(5) < 3 ? 1 : 2);
     const bool unguarded = sh.variant >= 2;
     sh.max_steps = 400000;
 
@@ -463,7 +495,7 @@ PBT_PROPERTY(loser_tree_scale) {
     // ---- keys (non-negative), sorted by the comparator unless `arbitrary`
     const long nv = keymode == 0 ? 1 + rng.below(5) : keymode == 2 ? std::max<long>(2, total / 8) : 1000001;
     const long W = 1 + rng.below(keymode == 4 || keymode == 5 ? 600 : 1);
-    int kmax = 0;
+    int kmax = 0, kmin = 2000000000;
     sh.stream.resize((size_t)k);
     for (int p = 0; p < k; ++p) {
         std::vector<Key>& v = sh.stream[p];
@@ -482,14 +514,23 @@ PBT_PROPERTY(loser_tree_scale) {
             v[(size_t)j].key = x;
             v[(size_t)j].tag = (uint32_t)p * 100000u + (uint32_t)j;
             kmax = std::max(kmax, x);
+            kmin = std::min(kmin, x);
         }
         if (!sh.arbitrary) {
             if (sh.desc) std::stable_sort(v.begin(), v.end(), [](const Key& a, const Key& b) { return a.key > b.key; });
             else std::stable_sort(v.begin(), v.end(), [](const Key& a, const Key& b) { return a.key < b.key; });
         }
     }
-    // the constructor sentinel of the unguarded trees: strictly greater (w.r.t. the comparator) than every key
-    const Key* sentinel = new Key{sh.desc ? -1 - sentoff : kmax + 1 + sentoff, 0x5e9717e1u};
+    // the constructor sentinel of the unguarded trees (see sentmode above)
+    int skey = sh.desc ? -1 - sentoff : kmax + 1 + sentoff, sclass = 0;
+    if (unguarded && sentmode == 1) skey = sh.desc ? kmin : kmax, sclass = 1;
+    if (unguarded && sentmode == 2) {
+        skey = sh.stream[0].back().key;
+        const bool beyond = sh.desc ? kmin < skey : kmax > skey;
+        sclass = beyond ? 2 : 1;
+    }
+    sh.sent_class = sclass;
+    const Key* sentinel = new Key{skey, 0x5e9717e1u};
     struct Free {
         const Key* p;
         ~Free() { delete p; }
@@ -559,6 +600,12 @@ PBT_PROPERTY(loser_tree_scale) {
     if (unguarded && st.replays >= 100) pbt::label("unguarded:replays>=100");
     if (unguarded && st.replays >= 1000) pbt::label("unguarded:replays>=1000");
     if (unguarded && k >= 64 && st.replays >= 2 * k) pbt::label("unguarded:k>=64_replays>=2k");
+    if (unguarded) {
+        pbt::label(sclass == 0 ? "sentinel=strictly_above" : sclass == 1 ? "sentinel=equiv_greatest_key" : "sentinel=last_key_of_stream_0(restricted)");
+        if (st.winner_equiv_sentinel) pbt::label("winner_equiv_sentinel_asserted");
+        if (st.winner_equiv_sentinel && k > 20 && (k & (k - 1)) != 0) pbt::label("winner_equiv_sentinel_asserted:k>20_non_pow2");
+        if (st.cut_by_sentinel) pbt::label("history_cut_by_sentinel_rule");
+    }
     if (!unguarded && !st.drained && !st.all_exhausted_at_start) pbt::label("history_bound_hit");
     const bool dup = keymode == 1 || keymode == 6 || total > nv; // some key value occurs twice (pigeonhole for the drawn modes)
     bool dup2 = dup;
